@@ -128,11 +128,13 @@ func identity(v ssa.Value) ssa.Value { return v }
 // trueGuardedBy: in g, every exit that can answer true lies past all conjuncts (as a branch taken, or as the
 // returned boolean itself); returns the missing ones.
 func trueGuardedBy(c *Ctx, g *ssa.Function, through func(ssa.Value) ssa.Value, conj []conjunct) []string {
+	enterScan(g)
 	return answerGuardedBy(c, g, through, conj, true)
 }
 
 // answerGuardedBy: whenever g answers `want`, every conjunct has been established.
 func answerGuardedBy(c *Ctx, g *ssa.Function, through func(ssa.Value) ssa.Value, conj []conjunct, want bool) []string {
+	enterScan(g)
 	rets := returnsOf(g)
 	if len(rets) == 0 {
 		return []string{"no answer"}
@@ -201,9 +203,10 @@ func (cj conjunct) negate() conjunct {
 
 // matchEdges looks for the membership test over a list satisfying isList in f.
 func matchEdges(c *Ctx, f *ssa.Function, isList func(ssa.Value) bool, conj []conjunct) *matchResult {
+	enterScan(f)
 	// (b) helper / (c) slices.ContainsFunc / IndexFunc: a call whose result decides
 	var res *matchResult
-	allInstrs(f, func(in ssa.Instruction) {
+	allInstrsIn(f, func(in ssa.Instruction) {
 		call, ok := in.(*ssa.Call)
 		if !ok || res != nil {
 			return
